@@ -4,6 +4,7 @@ import io
 import math
 
 from openpyxl import load_workbook
+from openpyxl.utils import get_column_letter
 from openpyxl.worksheet.formula import ArrayFormula
 
 from mc import driver as D
@@ -160,6 +161,15 @@ def run_cases(cases, stats):
                             bad = ('value', {'sheet': j, 'col': cc, 'row': rr, 'type': vt, 'expected': D.enc(exp)},
                                    [out[0], D.enc(out[1]) if out[0] == 'VALUE' else out[1]])
                             break
+                        if (cc, rr) in p:
+                            # the same cell addressed by sheet title, column letters and row text
+                            out2 = D.eval_cell(ex, TITLES[j], get_column_letter(cc), str(rr))
+                            stats['evaluations'] += 1
+                            if out2[0] != 'VALUE' or not same(exp, out2[1]):
+                                bad = ('value', {'sheet': TITLES[j], 'col': get_column_letter(cc), 'row': rr, 'type': type(p[(cc, rr)]).__name__,
+                                                 'expected': D.enc(exp), 'addressing': 'title+letters'},
+                                       [out2[0], D.enc(out2[1]) if out2[0] == 'VALUE' else out2[1]])
+                                break
                     if bad:
                         break
         stats['out:' + (bad[0] if bad else 'ok')] += 1
